@@ -17,6 +17,12 @@ CHECKS = {
   level="Generated-input search over directive texts at every directive position and over programs of the full Go type grammar; every case must end in output or a diagnostic, panics are caught by recover(), hangs by a generous guard, process deaths (stack overflow) by journaling the case and re-running it alone. Exploration: finds panics that exist in the sampled region, proves nothing beyond it.",
   note="In-process evaluation through the verif hook config.ParseWithLoader for speed; the non-hook path (cli -> GenerateConverters) is exercised by the E-cli checks. The 'diagnostic names the offending declaration' clause is recorded as a label only.",
   design="5/C13"),
+ "C02": dict(
+  engine="E-run",
+  technique="property-based testing: rapid-generated converter programs are generated, compiled and executed on rapid-generated values; differential against a reflective reference interpreter of the rule model's plan",
+  level="Generated programs x generated runtime values; every generated method is executed and compared value-by-value (nil-ness, lengths, order, entry counts, basic values) with an independent reference, panics are violations. Exploration over a sampled space of type shapes and values.",
+  note="Trusts the rule model's plan and the reflective executor (harness/drvsrc). Goverter failing to generate or emitting uncompilable code is counted as discarded here (C03 / C01 decide those).",
+  design="5/C02"),
 }
 
 def main():
